@@ -17,7 +17,7 @@ from vf.outidx import StubSet
 from vf.pipeline import run_case
 
 MOD = "c11"
-FOREIGN = [["ext", "decimal", "Decimal"], ["ext", "fractions", "Fraction"], ["ext", "pathlib", "PurePath"], ["ext", "xml.dom.minidom", "Document"]]
+FOREIGN = [["ext", "decimal", "Decimal"], ["ext", "fractions", "Fraction"], ["ext", "pathlib", "PurePath"], ["ext", "xml.dom.minidom", "Document"], ["ext", "concurrent.futures", "Executor"], ["ext", "concurrent.futures", "Executor"]]  # (Executor lives in concurrent.futures._base: a private path segment)
 FOREIGN_GENERIC = [["ext", "collections", "OrderedDict"], ["ext", "collections", "Counter"]]  # rendered Name<Any, ...>: open finding
 UNMAPPED_BUILTINS = ["bytes", "object", "complex", "bytearray", "frozenset"]
 
